@@ -1166,7 +1166,7 @@ func main() {
 		"the proof encoding starts with >= 1 zero byte; an adversarial case counts when a shifted proof was built; a qn case counts when " +
 		"validateProve accepted or panicked; an isCanonical case counts when the input is a non-reduced encoding; a scalar case counts when " +
 		"s = (c*x+k) mod ell was compared for an honest proof and s + j*ell was submitted to VRFVerify; a purity case counts when the in-place/reordered " +
-		"call sequence of one key was run to the end; a concurrency case counts per goroutine that ran its loop; an adversarial-header case counts per mutated header pair sent through verifyBlockVRF; a header case counts when genVrfMsg / genProve / verifyBlockVRF were run repeatedly on the same header objects or an over-long prove value " +
+		"call sequence of one key was run to the end; a worker-history case counts per worker object driven through a non-monotone delta schedule; a key-transport case counts per key sent through hex text / the miner record, and per genesis proposer key; a concurrency case counts per goroutine that ran its loop; an adversarial-header case counts per mutated header pair sent through verifyBlockVRF; a header case counts when genVrfMsg / genProve / verifyBlockVRF were run repeatedly on the same header objects or an over-long prove value " +
 		"went through verifyBlockVRF; a curve case counts when values extracted from edwards25519 (decompression of a non-random or valid string, " +
 		"Double/GeSub coordinates, short scalar mults, the U/V of a whole verification, shifted vs honest Gamma) were handed to the curve model")
 	cs = hx.NewCases(a.Out, "From V.C16 Require Import Model Harness.", "case", "check", 300)
@@ -1504,6 +1504,10 @@ func main() {
 	headerSection(r, keys, thorough)
 	res.Note(fmt.Sprintf("header level: genVrfMsg on reused Random slices (delta 0,1,2,3,10), genProve and verifyBlockVRF twice on the same header objects, "+
 		"over-long prove values (suffix junk, prefix junk, + k*2^640) through verifyBlockVRF (%.1fs)", time.Since(t0).Seconds()))
+
+	// ---------- 6b'. worker history, key transport ----------
+	workerHistorySection(r, keys, thorough)
+	keyTransportSection(r, keys, thorough)
 
 	// ---------- 6c. concurrency ----------
 	concurrencySection(r, keys, thorough)
